@@ -6,7 +6,7 @@ From WIP Require Import WorldSpec.
 Arguments N.add : simpl never.
 Arguments N.sub : simpl never.
 Arguments N.mul : simpl never.
-From WIP Require Export WorldCore WorldSplice WorldRead WorldMore.
+From WIP Require Export WorldCore WorldSplice WorldRead WorldMore WorldDrain.
 
 Lemma exec_refines_step c w st o r :
   cfg_wf c -> WRep c w st -> ufuse (wuw w) = None ->
@@ -133,7 +133,9 @@ Proof.
       split; [reflexivity|split; [reflexivity|split; [reflexivity|]]]. rewrite N.sub_diag.
       apply step_ok_refl; assumption.
   - (* ODrain *)
-    exact (exec_drain c w st a v sb eb pat f r Hwf HW Hfuse Hr).
+    destruct (sp_drain c st (unext (wuw w)) v sb eb pat f) as [r0|] eqn:Ed.
+    + injection Hr as <-. exact (exec_drain c w st a v sb eb pat f r0 Hwf HW Hfuse Ed).
+    + cbn [admissible] in Hadm. exact (exec_drain_mv c w st a v sb eb pat f r Hwf HW Hfuse Hr (adm_pat_of c w v pat Hadm)).
   - (* OSplice *)
     cbn [admissible] in Hadm.
     destruct rk as [| |src]; try exact (exec_splice c w st a v sb eb pat f _ n wrong_at claimed r Hwf HW Hfuse Hr Hadm).
@@ -231,6 +233,8 @@ Lemma sp_capacity_nx c st nx v want exact r : sp_capacity c st nx v want exact =
 Proof. unfold sp_capacity. cbv zeta. intros H. crush H; cbn; split; lia. Qed.
 Lemma sp_drain_nx c st nx v sb eb pat f r : sp_drain c st nx v sb eb pat f = Some r -> nx <= s_nx r /\ s_out r < 100.
 Proof. unfold sp_drain. cbv zeta. intros H. crush H; cbn; split; lia. Qed.
+Lemma sp_drain_mv_nx c st nx v sb eb pat f r : sp_drain_mv c st nx v sb eb pat f = Some r -> nx <= s_nx r /\ s_out r < 100.
+Proof. unfold sp_drain_mv. cbv zeta. intros H. crush H; cbn; split; lia. Qed.
 Lemma sp_splice_nx c st nx v sb eb pat f rk n wa cl r :
   sp_splice c st nx v sb eb pat f rk n wa cl = Some r -> nx <= s_nx r /\ s_out r < 100.
 Proof.
@@ -260,7 +264,8 @@ Proof.
     try (apply sp_new_nx in H; exact H); try (apply sp_clone_nx in H; exact H);
     try (destruct (get_a v st); [destruct (Nat.eqb dst v); [discriminate|apply sp_new_nx in H; exact H]|discriminate]);
     try (apply sp_capacity_nx in H; exact H);
-    try (apply sp_drain_nx in H; exact H);
+    try (destruct (sp_drain c st nx v sb eb pat f) as [r0|] eqn:Ed;
+         [injection H as <-; apply sp_drain_nx in Ed; exact Ed|apply sp_drain_mv_nx in H; exact H]);
     try (apply sp_splice_nx in H; exact H);
     try (destruct rk as [| |src]; try (apply sp_splice_nx in H; exact H);
          destruct wrong_at; [apply sp_splice_nx in H; exact H|];
@@ -421,6 +426,11 @@ Definition adm_manyb (c : cfg) (w : world) (k : sink) (d : nat) : bool :=
   | Some vv => ((sink_count k d <? 1) || can_takeb c vv) && ((sink_count k d <? 2) || roomyb c vv (sink_count k d))
   | None => true
   end.
+Definition adm_patb (c : cfg) (w : world) (pat : list (bool * sink)) (d : nat) : bool :=
+  match get_vec d w with
+  | Some vv => ((pat_count pat d <? 1) || can_takeb c vv) && ((pat_count pat d <? 2) || roomyb c vv (pat_count pat d))
+  | None => true
+  end.
 Definition adm_spliceb (c : cfg) (w : world) (vid : nat) (sb eb : bound) (n : N) : bool :=
   match get_vec vid w with
   | Some vv =>
@@ -436,6 +446,7 @@ Definition admissibleb (c : cfg) (w : world) (o : op) : bool :=
   match o with
   | OPush _ v _ | OInsert _ v _ _ => adm_vecb c w v
   | OPop _ _ k | ORemove _ _ _ k | OSwapRemove _ _ _ k => forallb (adm_manyb c w k) (sink_dsts k)
+  | ODrain _ _ _ _ pat _ => forallb (adm_patb c w pat) (pat_dsts pat)
   | ONew _ bk | OCloneEmptyIn _ _ bk => bk_wfb bk
   | OClone v _ =>
       match get_vec v w with
@@ -558,6 +569,13 @@ Proof.
   - apply Bool.orb_true_iff in H1. destruct H1 as [H1|H1]; [apply N.ltb_lt in H1; lia|apply can_takeb_sound; exact H1].
   - apply Bool.orb_true_iff in H2. destruct H2 as [H2|H2]; [apply N.ltb_lt in H2; lia|apply roomyb_sound; exact H2].
 Qed.
+Lemma adm_patb_sound c w pat d : adm_patb c w pat d = true -> adm_many c w d (pat_count pat d).
+Proof.
+  unfold adm_patb, adm_many. intros H vv Hg. rewrite Hg in H. apply andb_prop in H. destruct H as [H1 H2].
+  split; intros Hm.
+  - apply Bool.orb_true_iff in H1. destruct H1 as [H1|H1]; [apply N.ltb_lt in H1; lia|apply can_takeb_sound; exact H1].
+  - apply Bool.orb_true_iff in H2. destruct H2 as [H2|H2]; [apply N.ltb_lt in H2; lia|apply roomyb_sound; exact H2].
+Qed.
 Lemma admissibleb_sound c w o : admissibleb c w o = true -> admissible c w o.
 Proof.
   destruct o; cbn [admissibleb admissible]; intros H; try exact I;
@@ -567,6 +585,7 @@ Proof.
     try (apply adm_vecb_sound; exact H); try (apply bk_wfb_sound; exact H);
     try (apply adm_reserveb_sound; exact H); try (apply adm_shrinkb_sound; exact H);
     try (intros vv Hg; rewrite Hg in H; apply N.leb_le; exact H);
+    try (intros d Hin; apply adm_patb_sound; rewrite forallb_forall in H; apply H; exact Hin);
     intros d Hin; apply adm_manyb_sound; rewrite forallb_forall in H; apply H; exact Hin.
 Qed.
 Lemma Admissibleb_sound c ops : forall w, Admissibleb c w ops = true -> Admissible c w ops.
@@ -647,6 +666,12 @@ Definition ex_ops : list op :=
     OSplice Erased 9 (BIncluded 0) (BExcluded 1) [] FinDrop (RLazy 10) 2 None 2;
     OSplice Erased 9 (BIncluded 0) (BExcluded 1) [(true, KDrop)] FinForget (RLazy 10) 1 None 1;
     OSplice Typed 9 BUnbounded (BExcluded 0) [] FinDrop (RLazy 10) 1 None 3;
+    (* drained items moved into other vectors: one pushed into the relocating backend, one inserted, one forgotten, the
+       rest destroyed with the iterator; typed; a move refused by the full StackN<2,8>: the item is destroyed and
+       the unwinding drops the iterator *)
+    ODrain Erased 10 BUnbounded BUnbounded [(true, KPush 9); (false, KIns 9 0); (true, KForget)] FinDrop;
+    ODrain Typed 9 (BIncluded 1) BUnbounded [(false, KPush 10)] FinForget;
+    ODrain Erased 9 BUnbounded BUnbounded [(true, KPush 8)] FinDrop;
     OViews 8 ].                                   (* view geometry of the full StackN<2,8>: 6 bytes of elements, no spare *)
 
 Example ex_spec_defined : exists rs, spec_run ex_cfg [] 1 ex_ops = Some rs /\ length rs = length ex_ops.
@@ -680,7 +705,8 @@ Example ex_outcomes :
      (0,0,[1]); (0,0,[1; 1; 56; 0; 56]); (2,3,[]); (0,0,[62]); (2,1,[]);
      (0,0,[]); (0,0,[]); (0,0,[64]);
      (0,0,[]); (0,0,[]); (0,0,[61]); (2,1,[]);
-     (0,0,[]); (2,3,[]); (0,0,[1]); (0,0,[1; 1; 70; 0]); (0,0,[0]); (0,0,[0; 6; 6; 0; 0; 2; 6; 0; 0])].
+     (0,0,[]); (2,3,[]); (0,0,[1]); (0,0,[1; 1; 70; 0]); (0,0,[0]);
+     (0,0,[3; 1; 61; 2; 1; 67; 1; 1; 66; 0]); (0,0,[2; 1; 61; 1]); (2,3,[]); (0,0,[0; 6; 6; 0; 0; 2; 6; 0; 0])].
 Proof. vm_compute. reflexivity. Qed.
 
 (** ** Corollaries in the vocabulary of the properties *)
